@@ -260,7 +260,7 @@ func (e *Exec) livenessMonitor() {
 	e.probe("liveness-suffix-used")
 }
 
-func anyoneElseCanRun() bool { return simrt.OthersEligible() }
+func anyoneElseCanRun() bool { return simrt.OthersEligibleOrTimers() }
 
 //go:norace
 func (e *Exec) driver(id int, prog []Op) {
